@@ -914,7 +914,11 @@ static void
 orc_parse_advance (OrcParser *parser)
 {
   parser->p += parser->line_length;
-  if (parser->p[0] == '\n' || parser->p[0] == '\r') {
+  /* step over the whole line ending: "\r\n" is one ending, not two lines */
+  if (parser->p[0] == '\r') {
+    parser->p++;
+  }
+  if (parser->p[0] == '\n') {
     parser->p++;
   }
 }
